@@ -9,6 +9,7 @@ import (
 	"fmt"
 	"os"
 	"path/filepath"
+	"strconv"
 	"strings"
 	"time"
 
@@ -102,6 +103,23 @@ func runReplay(prop string, file string) int {
 	}
 	rp, ok := replayers[v.Kind]
 	if !ok {
+		// no replayer of its own: run the monitor that found it again, with the same seed and scale
+		if fn, has := monitors[v.Params["_monitor"]]; has {
+			seed, _ := strconv.ParseUint(v.Params["_monitor_seed"], 10, 64)
+			scale, _ := strconv.Atoi(v.Params["_monitor_scale"])
+			tmp, _ := os.MkdirTemp("", "verif-replay-")
+			defer os.RemoveAll(tmp)
+			m := &monOut{}
+			fn(newRng(seed^hashStr(v.Params["_monitor"])), scale, m, tmp)
+			for _, w := range m.Violations {
+				if w.Kind == v.Kind {
+					fmt.Printf("replay %s kind=%s: violates=true %s\n", prop, v.Kind, w.What)
+					return 1
+				}
+			}
+			fmt.Printf("replay %s kind=%s: violates=false (the monitor %s, run again with seed %d and scale %d, reports no violation of that kind)\n", prop, v.Kind, v.Params["_monitor"], seed, scale)
+			return 0
+		}
 		fmt.Printf("replay: no replayer for kind %q (see the file for the failing obligation)\n", v.Kind)
 		return 1
 	}
